@@ -112,6 +112,76 @@ var parConfigs = []parConfig{
 	{Name: "parand_w3_i2", Pipeline: "Heap", Fn: "ParAnd", NW: 3, Items: []string{"multi", "multi"}},
 }
 
+// parInputs: input bitmaps realising a configuration
+func parInputs(cfg *parConfig, r *rand.Rand) []*roaring.Bitmap {
+	var bms []*roaring.Bitmap
+	switch cfg.Pipeline {
+	case "ParOr":
+		a, b, c := roaring.New(), roaring.New(), roaring.New()
+		for k := cfg.LK; k <= cfg.HK; k++ {
+			v := uint32(k)<<16 + uint32(r.Intn(65536))
+			switch (k - cfg.LK) % 3 {
+			case 0:
+				a.Add(v)
+				b.Add(v + 1)
+			case 1:
+				b.Add(v)
+			default:
+				c.Add(v)
+				a.Add(v)
+			}
+		}
+		a.Add(uint32(cfg.LK) << 16) // a and b span the whole key range
+		b.Add(uint32(cfg.HK)<<16 + 7)
+		bms = []*roaring.Bitmap{a, b, c}
+	default:
+		n := 3
+		bms = make([]*roaring.Bitmap, n)
+		for i := range bms {
+			bms[i] = roaring.New()
+		}
+		for k, it := range cfg.Items {
+			v := uint32(k+2)<<16 + uint32(r.Intn(60000))
+			if it == "multi" || cfg.Fn == "ParAnd" {
+				for i := range bms {
+					bms[i].Add(v)
+					bms[i].Add(v + uint32(i) + 1)
+				}
+			} else {
+				bms[r.Intn(n)].Add(v)
+			}
+		}
+		if cfg.Fn == "ParAnd" { // keys that are not common to all inputs are not work items
+			bms[0].Add(1)
+			bms[1].Add(0xFFFF0000)
+		}
+	}
+	return bms
+}
+
+func parCall(cfg *parConfig, bms []*roaring.Bitmap) *roaring.Bitmap {
+	switch cfg.Fn {
+	case "ParOr":
+		return roaring.ParOr(cfg.NW, bms...)
+	case "ParHeapOr":
+		return roaring.ParHeapOr(cfg.NW, bms...)
+	}
+	return roaring.ParAnd(cfg.NW, bms...)
+}
+
+// parExpected: the sequential fold the parallel call must equal
+func parExpected(cfg *parConfig, bms []*roaring.Bitmap) *roaring.Bitmap {
+	res := bms[0].Clone()
+	for _, b := range bms[1:] {
+		if cfg.Fn == "ParAnd" {
+			res.And(b)
+		} else {
+			res.Or(b)
+		}
+	}
+	return res
+}
+
 func cmdParGate(args []string) {
 	fs := flag.NewFlagSet("pargate", flag.ExitOnError)
 	seed := fs.Int64("seed", 1, "seed")
@@ -149,49 +219,8 @@ func cmdParGate(args []string) {
 			continue
 		}
 		r := rand.New(rand.NewSource(*seed*2750159 + int64(id)))
-		// inputs realising the configuration
-		var bms []*roaring.Bitmap
-		switch cfg.Pipeline {
-		case "ParOr":
-			a, b, c := roaring.New(), roaring.New(), roaring.New()
-			for k := cfg.LK; k <= cfg.HK; k++ {
-				v := uint32(k)<<16 + uint32(r.Intn(65536))
-				switch (k - cfg.LK) % 3 {
-				case 0:
-					a.Add(v)
-					b.Add(v + 1)
-				case 1:
-					b.Add(v)
-				default:
-					c.Add(v)
-					a.Add(v)
-				}
-			}
-			a.Add(uint32(cfg.LK) << 16) // a and b span the whole key range
-			b.Add(uint32(cfg.HK)<<16 + 7)
-			bms = []*roaring.Bitmap{a, b, c}
-		default:
-			n := 3
-			bms = make([]*roaring.Bitmap, n)
-			for i := range bms {
-				bms[i] = roaring.New()
-			}
-			for k, it := range cfg.Items {
-				v := uint32(k+2)<<16 + uint32(r.Intn(60000))
-				if it == "multi" || cfg.Fn == "ParAnd" {
-					for i := range bms {
-						bms[i].Add(v)
-						bms[i].Add(v + uint32(i) + 1)
-					}
-				} else {
-					bms[r.Intn(n)].Add(v)
-				}
-			}
-			if cfg.Fn == "ParAnd" { // keys that are not common to all inputs are not work items
-				bms[0].Add(1)
-				bms[1].Add(0xFFFF0000)
-			}
-		}
+		bms := parInputs(cfg, r)
+		want := parExpected(cfg, bms)
 		rec := &gateRec{r: rand.New(rand.NewSource(r.Int63())), jitter: r.Intn(3)}
 		setRecorder(rec)
 		mainG := curGID()
@@ -202,20 +231,15 @@ func cmdParGate(args []string) {
 					done <- nil
 				}
 			}()
-			switch cfg.Fn {
-			case "ParOr":
-				done <- roaring.ParOr(cfg.NW, bms...)
-			case "ParHeapOr":
-				done <- roaring.ParHeapOr(cfg.NW, bms...)
-			default:
-				done <- roaring.ParAnd(cfg.NW, bms...)
-			}
+			done <- parCall(cfg, bms)
 		}()
 		outcome := "returned"
 		select {
 		case res := <-done:
 			if res == nil {
 				outcome = "panic"
+			} else if !res.Equals(want) {
+				outcome = "wrong-result"
 			}
 		case <-time.After(20 * time.Second):
 			outcome = "hang"
